@@ -642,7 +642,17 @@ def run_case(ctx, ci, rng, cases, records):
         del tree.slice_arrays
     npairs = N - 1
     xtr = [xrec.calls[k * npairs:(k + 1) * npairs] for k in range(nslices)]
-    zero_slices = [k for k in range(nslices) if any(c[2].same(X("f", Fraction(0))) for c in xtr[k])]
+    # a slice meets a zero factor iff its exact partial result is entirely zero (a zero intermediate makes the
+    # slice result zero, and a zero slice result has a zero last factor): judged by the oracle, independent of
+    # the recorder (whose call list is cut short by the check_zero exit)
+    zero_slices = []
+    if tree.sliced_inds:
+        for k in range(nslices):
+            sres = oracle.dense_einsum(inputs, output, size_dict, ints, fixed=tree.slice_key(k))
+            if all(v == 0 for v in sres.values()):
+                zero_slices.append(k)
+    elif result_zero:
+        zero_slices = [0]
     if zero_slices:
         ctx.count("has_zero_slice")
     if len(zero_slices) > 1:
@@ -654,7 +664,24 @@ def run_case(ctx, ci, rng, cases, records):
     slices_lit = "[" + "; ".join("[" + "; ".join(coq_vec(a) for a in arrs) + "]" for arrs in slice_arrays) + "]"
     czl = "true" if cz else "false"
     wf = "X_wf %s (seq 0 %d)" % (prog_lit, N)
-    if out_sliced:
+    if out_sliced and cz and zero_slices and len(out_sliced) != len(output):
+        # known-broken corner (finding strip-zero-chunk-check-zero-stack): Python-scalar chunks reach np.stack, which
+        # raises ValueError / AxisError or, for axis 0 and only scalars, builds an array of the wrong shape.  The
+        # model is compared slice by slice here (real contract_slice on the exact arrays), not through the stack.
+        ctx.count("check_zero_stack_corner")
+        tree.slice_arrays = lambda arrays, i: [Recorder._arr(a) for a in orig_slice_arrays(arrays, i)]
+        try:
+            with warnings.catch_warnings():
+                warnings.simplefilter("ignore")
+                per = [tree.contract_slice(xarrs, k, strip_exponent=True, check_zero=True, prefer_einsum=prefer_einsum,
+                                           implementation=Recorder().pair) for k in range(nslices)]
+            expect = "Some [%s]" % "; ".join("Strip %s %s" % (mant_lit(m_), exp_lit(e_)) for m_, e_ in per)
+        except Exception as ex:  # noqa
+            expect = "None"
+        finally:
+            del tree.slice_arrays
+        model = "X_slices %s true true prog slices" % PT
+    elif out_sliced:
         keys = []
         for k in range(nslices):
             kk = tree.slice_key(k)
@@ -755,9 +782,10 @@ def run_case(ctx, ci, rng, cases, records):
         key = None
         if zero_slices and sliced and not cz:
             key = "strip-zero-slice"
-        elif zero_slices and sliced and cz and out_sliced and ferr is not None and "same shape" in ferr:
+        elif zero_slices and sliced and cz and out_sliced and ferr is not None and (
+                "same shape" in ferr or "AxisError" in ferr):
             key = "strip-zero-chunk-check-zero-stack"
-        elif zero_slices and sliced and cz and len(zero_slices) > 1:
+        elif zero_slices and sliced and cz and len(zero_slices) > 1 and ferr is None:
             key = "strip-two-zero-slices-check-zero"
         rec2 = dict(rec)
         rec2["observed"] = repr(fout)[:600] if ferr is None else ferr
